@@ -320,7 +320,7 @@ theorem final_rest (sc : Scenario) (last : Bool) (b : BoardSetting) (d : Decisio
     (fun p => List.flatMap (t2mOf p) [finalPhase sc last b d] ++ rest p) = rest := by
   funext p; simp [t2mOf_final]
 
-theorem boardPhases_eq (sc : Scenario) (k : Nat) (last : Bool) (b : BoardSetting) (d : Decisions) :
+theorem boardPhases_eq_main (sc : Scenario) (k : Nat) (last : Bool) (b : BoardSetting) (d : Decisions) :
     boardPhases sc k last b d =
       Phase.deal (boardHeader k b.dealer b.vul) (fun p => cardsMsg p.formal (b.deal p))
         (fun p => readyFor p "deal".toList) (fun p => readyFor p "cards".toList) ::
@@ -364,7 +364,7 @@ theorem mainBoard_run (sc : Scenario) (k : Nat) (last : Bool) (b : BoardSetting)
     (hfeed : Feeds i (boardPhases sc k last b d) rest) :
     mainBoardR sc k last b i = some (progOfPhases (boardPhases sc k last b d) .main, rest) := by
   have hbc := boardContract_conforming b d hca
-  rw [boardPhases_eq] at hfeed ⊢
+  rw [boardPhases_eq_main] at hfeed ⊢
   have hfeed1 := feeds_skip (fun p => t2mOf_deal p _ _ _ _) hfeed
   rcases specContract_shape b.dealer b.vul (d.calls.map (·.1)).reverse with ⟨hf, hd⟩ | ⟨bi, decl, hf, hd⟩
   · rw [← hbc] at hf hd
